@@ -2,7 +2,7 @@
    The model (Model/Sim.v) is instantiated with the exact simulator Common/QSim.v and evaluated on the program
    the implementation ran on; results are compared as finite maps: key sets exactly, probabilities within 1e-12. *)
 From Coq Require Import QArith Qabs.
-From CKT Require Import Common.Base Common.QSim Model.Sim Extracted.Facts.
+From CKT Require Import Common.Base Common.QSim Model.Sim Model.SimTree Extracted.Facts.
 Close Scope Q_scope.
 
 Definition eps_model : Q := (1 # 1000000000000)%Q.      (* 1e-12: binary64 result vs exact value *)
@@ -96,6 +96,14 @@ Definition chk_multi (c : res (list (list (N * Q))) * list (list (N * Q))) : boo
              forallb (fun p => dist_vs_oracle (Ok (fst p)) (snd p)) (combine ds oracles)
   | _ => false
   end.
+
+(* sampler stream on the exact gate set: ([(nq, ncl, program)], quasi_dists of ONE ExactSampler.run over them, oracle agreed) *)
+Definition multiq_case := (list (nat * nat * qprog) * res (list (list (N * Q))) * bool)%type.
+Definition chk_multiq (c : multiq_case) : bool :=
+  let '(cs, e, oracle_ok) := c in
+  oracle_ok &&
+  forallb (fun c => audit (snd c) (init_vec (fst (fst c)))) cs &&
+  res_beq (list_beq (map_eqv eps_model)) (qsampler_run sim_tolerance cs) e.
 
 (* shorthand used by the case files *)
 Definition G := @PGate qgate.
